@@ -325,28 +325,29 @@ __in_range_p(struct dt_dt_s now, const struct dseq_clo_s *clo)
 			return dt_dt_in_range_p(now, clo->lst, clo->fst) == 1;
 		}
 	}
-	/* otherwise perform a simple range check */
-	if (clo->dir > 0) {
-		if (clo->fst.t.u < clo->lst.t.u) {
-			/* dseq A B  with A < B */
-			return now.t.u >= clo->fst.t.u &&
-				now.t.u <= clo->lst.t.u;
-		} else {
-			/* dseq A B  with A > B and wrap-around,
-			 * carries have kindly been stored in d.u */
-			return now.t.u <= clo->lst.t.u || now.d.u == 0U;
+	/* otherwise the times run around the clock until LAST is passed,
+	 * i.e. until more time has elapsed than there is between FIRST
+	 * and LAST, the days elapsed have kindly been stored in d.u */
+#define HMS_SECS(x)	\
+	(((int)(x).hms.h * MINS_PER_HOUR + (int)(x).hms.m) * SECS_PER_MIN + \
+	 (int)(x).hms.s)
+	if (clo->dir) {
+		const int fs = HMS_SECS(clo->fst.t);
+		const int ls = HMS_SECS(clo->lst.t);
+		int64_t span = clo->dir > 0 ? ls - fs : fs - ls;
+		int64_t elapsed = (int64_t)(int32_t)now.d.u * SECS_PER_DAY +
+			HMS_SECS(now.t) - fs;
+
+		if (span <= 0) {
+			/* dseq A B  with A >= B and wrap-around */
+			span += SECS_PER_DAY;
 		}
-	} else if (clo->dir < 0) {
-		if (clo->fst.t.u > clo->lst.t.u) {
-			/* counting down from A to B */
-			return now.t.u <= clo->fst.t.u &&
-				now.t.u >= clo->lst.t.u;
-		} else {
-			/* count down from A to B with wrap around,
-			 * carries have kindly been stored in d.u */
-			return now.t.u >= clo->lst.t.u || now.d.u == 0U;
+		if (clo->dir < 0) {
+			elapsed = -elapsed;
 		}
+		return elapsed >= 0 && elapsed <= span;
 	}
+#undef HMS_SECS
 	return false;
 }
 
@@ -394,6 +395,13 @@ __get_dir(struct dt_dt_s d, const struct dseq_clo_s *clo)
 		/* trial addition to to see where it goes */
 		struct dt_dt_s tmp = __seq_next(d, clo);
 		return dt_dtcmp(tmp, d);
+	}
+	with (struct dt_dt_s tmp = __seq_next(d, clo)) {
+		if (tmp.t.u == d.t.u && !tmp.d.u) {
+			/* the increment doesn't move a time at all,
+			 * a date unit probably */
+			return 0;
+		}
 	}
 	if (clo->ite->dv > 0) {
 		return 1;
